@@ -105,10 +105,7 @@ func c08(c *Ctx) {
 				readIdx = i
 			}
 		}
-		hasPayload := rem != nil && hasLit(p, call.NLits, true, func(t *core.Term) bool {
-			z, isC := t.Args0Int()
-			return t.Kind == core.KLt && isC && z == 0 && t.Args[1] == rem
-		})
+		hasPayload := rem != nil && knowsGe(p, call.NLits, 1, is(rem))
 		if hasPayload {
 			last := reads[len(reads)-1]
 			if len(reads) < 2 || strip(last.Args[1]) != strip(rem) {
